@@ -96,6 +96,7 @@ def dumpReqB : Field := 23
 def dumpRespH : Field := 24
 def dumpRespB : Field := 25
 def baseURL : Field := 26
+def disableAutoRead : Field := 30
 def scheme : Field := 32
 def allowGetPayload : Field := 27
 def dialTLS : Field := 47
@@ -470,12 +471,14 @@ def retryLoop (x : ExecCtx) : (fuel : Nat) → (attempt : Nat) → Nat × List E
         let (n, rest) := retryLoop x fuel (a + 1)
         (n, log ++ cl ++ hl ++ [(7, x.interval, a + 1)] ++ rest)
 
-/-- where the dump of an execution goes and which of the four parts it has (`[]`: nothing dumped) -/
-def dumpFlags (w : VOwner) (hasBody : Bool) : List Nat :=
+/-- where the dump of an execution goes and which of the four parts it has (`[]`: nothing
+dumped). The request body part needs a body; the response body part needs somebody to read the
+response body (`autoRead`: the client's auto-read is on). -/
+def dumpFlags (w : VOwner) (hasBody autoRead : Bool) : List Nat :=
   if (w.val F.dumpOn).scalar == 0 then []
   else
     let parts := [(w.val F.dumpReqH).scalar, if hasBody then (w.val F.dumpReqB).scalar else 0,
-                  (w.val F.dumpRespH).scalar, (w.val F.dumpRespB).scalar]
+                  (w.val F.dumpRespH).scalar, if autoRead then (w.val F.dumpRespB).scalar else 0]
     if parts.all (· == 0) then [] else (w.val F.dumpOutput).scalar :: parts
 
 /-- What the origin receives for request record `rq` of client record `cl`. -/
@@ -550,7 +553,8 @@ def observe (s : VState) : Op → Obs
           let x := execCtx cl rq
           let (n, log) := retryLoop x x.maxRetries 0
           let hasBody := ro.body != .none
-          .exec n ro log (dumpFlags cl hasBody) (dumpFlags rq hasBody)
+          let autoRead := (cl.val F.disableAutoRead).scalar == 0
+          .exec n ro log (dumpFlags cl hasBody autoRead) (dumpFlags rq hasBody autoRead)
     else .none
   | .getCookies c => if c < s.count then .cookies ((s.owner c).val F.jar).toList else .none
   | .probe o => if o < s.count then .probe (probeOwner (s.owner o)) else .none
